@@ -790,7 +790,7 @@ class Interp:
         if pc['kind'] == 'trait':
             ty = pc['ty']
             tkey = self.defs.tykey(re.sub(r"^&('\w+ )?(mut )?", '', ty))
-            if re.fullmatch(r'[A-Z]\w?|impl .*|Self', ty.strip()) or tkey in self.dispatch_hint:
+            if re.fullmatch(r'[A-Z]\w?|impl .*|Self|dyn .*|\(dyn .*\)', ty.strip()) or tkey in self.dispatch_hint:
                 # generic receiver: dispatch on hint or on the run-time value
                 tkey = self.dispatch_hint.get(ty.strip(), self.dispatch_hint.get(tkey))
                 if tkey is None and args:
